@@ -19,6 +19,31 @@ pub fn run(ctx: &mut Ctx, _replay: Option<&str>) {
         allow_kb: true,
         sel_density: 5,
     };
+    // a credential that is accepted now must be refused once its exp lies more than the leeway in the past, also by a verifier
+    // thread that has accepted this very presentation before: the same calls again on the same thread after a pause (in the
+    // background while the rest of the run goes on)
+    let delayed = std::thread::spawn(move || {
+        let now = now();
+        let mut calls = vec![];
+        let mut names = vec![];
+        for (k, fmt) in [Fmt::Compact, Fmt::Json].into_iter().enumerate() {
+            let holder = if k == 0 { KeyId::HolderEc } else { KeyId::HolderEd };
+            let payload = json!({"iss": "https://issuer.example", "exp": now + 6, "iat": now, "_sd_alg": "sha-256", "cnf": {"jwk": holder.jwk_json().unwrap()}, "sub": "x"});
+            let jwt = sign_payload(&payload, KeyId::IssuerEc);
+            let sd_hash = hash(&Parts { jwt: jwt.clone(), disclosures: vec![], kb: None }.compact());
+            let kb = sign_token(&json!({"alg": holder.alg(), "typ": "kb+jwt"}), &json!({"nonce": "n-1", "aud": "https://verifier.example", "iat": now, "sd_hash": sd_hash}), holder, holder.alg());
+            calls.push(VerifyArgs { input: Parts { jwt: jwt.clone(), disclosures: vec![], kb: Some(kb) }.render(fmt), fmt, resolver: Resolver::always(KeyId::IssuerEc), aud: Some("https://verifier.example".into()), nonce: Some("n-1".into()) });
+            names.push(format!("{} with key binding", fmt.name()));
+            calls.push(VerifyArgs { input: Parts { jwt, disclosures: vec![], kb: None }.render(fmt), fmt, resolver: Resolver::always(KeyId::IssuerEc), aud: None, nonce: None });
+            names.push(format!("{} without key binding", fmt.name()));
+        }
+        let n = calls.len();
+        let mut twice = calls.clone();
+        twice.extend(calls.clone());
+        let mut pauses = vec![0u64; 2 * n];
+        pauses[n] = 6 + 60 + 4;
+        (verify_sequence(&twice, &pauses), names, now + 6)
+    });
     let n = ctx.tier.pick(300, 6000);
     let mut attacks = vec![];
     const Y: u64 = 365 * 24 * 3600;
@@ -164,6 +189,27 @@ pub fn run(ctx: &mut Ctx, _replay: Option<&str>) {
         }
     }
     run_attacks(ctx, &attacks);
+    match delayed.join() {
+        Ok((Some(res), names, exp)) => {
+            let n = names.len();
+            for k in 0..n {
+                let (first, second) = (&res[k], &res[n + k]);
+                ctx.evaluations += 1;
+                ctx.impl_calls += 2;
+                ctx.oracle_checks += 1;
+                ctx.count(&format!("delayed_reverification.first_{}.second_{}", first.out.class(), second.out.class()));
+                let case = json!({"delayed_reverification": {"presentation": names[k], "exp": exp, "first_verified_at": first.t0, "verified_again_at": second.t0, "same_thread": true}});
+                if second.t0 <= exp + 60 {
+                    ctx.notes.push("delayed re-verification: the second call ran before exp + leeway (not judged)".into());
+                } else if second.out.is_ok() {
+                    ctx.violation("oracle", "verify", &format!("a credential whose exp lies {} s in the past was accepted by a thread that had verified it before ({})", second.t0 - exp, names[k]), case, second.out.describe(), json!("Err"));
+                } else {
+                    ctx.nontrivial(&case);
+                }
+            }
+        }
+        _ => ctx.notes.push("delayed re-verification did not return".into()),
+    }
     if let Some(a) = attacks.last() {
         ctx.sample(json!({"case": a.name, "origin": a.origin}));
     }
